@@ -206,10 +206,11 @@ PROPS["C02"] = {
     "title": "resident cost within MaxSize after drain; nothing untracked",
     "technique": "SSA symbolic execution with controlled threads of two-client programs on the real Store (symbolic costs), then Wait and accounting invariants decided by z3; sync/atomic operations as scheduling points for the expiry window",
     "level_text": "Bounded model checking: two clients x OPS operations (Set k1 / Set k2 with symbolic costs 1..MaxSize, Delete, Get) in every interleaving within the preemption bound; after Wait the harness asserts, for all cost values, resident cost = policy total = sum of region sizes <= MaxSize, every resident entry on exactly one region list with policy weight = weight and not flagged removed, and Len/EstimatedSize views. A second program places a TTL extension at every atomic step of the expiry path (no source hook needed: the executor schedules at sync/atomic operations).",
-    "level_note": _thr_note + "Entry pool off (as the property states). The in-flight bound on unaccounted entries is not asserted (only the post-drain clauses). Known finding: removed flag set before the deadline re-check (ZZ_C02_ExpiryWindow; every assertion of that program is attributed to it).",
+    "level_note": _thr_note + "Entry pool off (as the property states). The in-flight bound on unaccounted entries is not asserted as a running monitor; the mechanism behind it (a writer waits on the full queue rather than skipping the accounting) is exercised with a one-slot queue, where a skipped event shows up as an untracked resident entry after the drain. Known finding: removed flag set before the deadline re-check (ZZ_C02_ExpiryWindow; every assertion of that program is attributed to it).",
     "assumptions": ["MaxSize 2, two keys"],
     "outside_bound": ["bound on unaccounted entries while writes are in flight", "more than 2 clients / 2 ops", "preemption bound above 1"],
     "quick": [H("ZZ_C02_Program", params={"PRE": 0}, reach=["drained"], bounds="2 clients x 2 ops, cap 2, preemptions 0, costs symbolic"),
+              H("ZZ_C02_Program", params={"PRE": 0, "WQ": 1}, reach=["drained"], bounds="same with a write queue of one slot: writers block on the full queue (a writer that skipped the accounting instead would leave an untracked entry)"),
               H("ZZ_C02_ExpiryWindow", params={"PRE": 1}, reach=["settled"], bounds="TTL extension vs expiry path at atomic granularity, preemptions 1")],
     "thorough": [H("ZZ_C02_Program", params={"PRE": 1}, reach=["drained"], bounds="2 clients x 2 ops, cap 2, preemptions 1"),
                  H("ZZ_C02_Program", params={"PRE": 0, "CAP": 3}, reach=["drained"]),
@@ -318,12 +319,16 @@ PROPS["C14"] = {
     "title": "hybrid cache never serves stale, deleted or expired values",
     "technique": "SSA symbolic execution with controlled threads of the real hybrid entry points (GetWithSecodary, Set, DeleteWithSecondary) with the real processSecondary worker and a nondeterministic secondary store; sequential histories against a model, Delete-vs-demotion race, symbolic read time",
     "level_text": "Bounded model checking: (a) every history of N calls (Set k1 with/without TTL, Set k2 on a one-slot memory tier so that demotion and promotion happen, hybrid Get, hybrid Delete, clock advance) with workers keeping up, checked against a model: a hit from either tier carries the last completed Set's value, never after a completed Delete or past the deadline; (b) Delete racing the demotion of the same entry in all schedules within the preemption bound; (c) promote-update-evict-read; (d) expired entry in the secondary tier with symbolic read time.",
-    "level_note": _thr_note + "Secondary store = harness map with a yield in every method (slow store); admission probability 1; one worker; the hand-off queue is never full (256 slots).",
+    "level_note": _thr_note + "Secondary store = harness map with a yield in every method (slow store); admission probability 1, 0 and symbolic; one worker (thorough: two); a full hand-off queue is modelled by letting the select in removeEntry take its default branch nondeterministically.",
     "assumptions": ["workers keep up between the calls of the sequential histories (the race program does not assume it)"],
-    "outside_bound": ["full hand-off queue", "admission probability below 1", "more than one worker", "histories longer than N (quick 4, thorough 5)"],
+    "outside_bound": ["more than two workers", "histories longer than N (quick 4, thorough 5)"],
     "quick": [H("ZZ_C14_Seq", params={"N": 4}, reach=["sequence-done", "hit", "promoted-from-secondary"], bounds="N=4 calls, memory capacity 1"),
+              H("ZZ_C14_Seq", params={"N": 4, "FULL": 1}, reach=["sequence-done", "hit"], bounds="N=4 calls, hand-off queue may be full at any demotion"),
+              H("ZZ_C14_Seq", params={"N": 3, "PROB": 2}, reach=["sequence-done", "hit"], solver="cvc5", bounds="N=3 calls, admission probability symbolic in [0,1]"),
               H("ZZ_C14_StalePromoted", reach=["evicted-again"]), H("ZZ_C14_DeleteRace", params={"PRE": 1}, reach=["settled"]), H("ZZ_C14_Expired", reach=["read"])],
-    "thorough": [H("ZZ_C14_Seq", params={"N": 5}, reach=["sequence-done", "hit", "promoted-from-secondary"], bounds="N=5 calls"),
+    "thorough": [H("ZZ_C14_Seq", params={"N": 5, "FULL": 1}, reach=["sequence-done", "hit"]), H("ZZ_C14_Seq", params={"N": 4, "PROB": 2}, reach=["sequence-done", "hit"], solver="cvc5"),
+                 H("ZZ_C14_Seq", params={"N": 4, "PROB": 0}, reach=["sequence-done", "hit"]), H("ZZ_C14_Seq", params={"N": 4, "WORKERS": 2}, reach=["sequence-done", "hit"]),
+                 H("ZZ_C14_Seq", params={"N": 5}, reach=["sequence-done", "hit", "promoted-from-secondary"], bounds="N=5 calls"),
                  H("ZZ_C14_StalePromoted", reach=["evicted-again"]), H("ZZ_C14_DeleteRace", params={"PRE": 2}, reach=["settled"]), H("ZZ_C14_Expired", reach=["read"])],
 }
 
